@@ -1,4 +1,4 @@
-import U3.Lemmas.Manager
+import U3.Lemmas.ManagerHdrs
 /-!
 # C05 — redirects are followed only as far as the effective retry policy allows
 
@@ -225,6 +225,50 @@ example : (run (statusWorld 303) (.pool barePool) 10 { postReq with url := [47] 
       (fun s => (s.reply.status, s.method, s.body))
     = [(303, [80, 79, 83, 84], some [120, 121]), (303, sGET, none), (303, sGET, none), (303, sGET, none)] := by
   decide
+
+/-- **303 ⇒ no content headers** — manager and pool level, for every header carrier (plain dict with
+any keys, or well-formed `HTTPHeaderDict`, per request or as the client's default): the follow-up of a
+303 carries no line whose lower-cased name is one of `_prepare_for_method_change`'s content-specific
+names (`Gen.contentSpecificHeaders`: Content-Encoding, Content-Language, Content-Location,
+Content-Type, Content-Length, Digest, Last-Modified) — except a line the proxy machinery itself
+injects (`Accept`, `Host`, the `proxy_headers` of a `ProxyManager` / proxied pool); for a
+`PoolManager` and a bare pool `c.injected = []`, i.e. there is none at all
+(`C05_303_no_content_headers_noproxy`). -/
+theorem C05_303_rewrite_headers (W : World) (c : Client) (fuel : Nat) (req : Req) (hwf : CarriersWF c req)
+    (i : Nat) (a b : Sent)
+    (ha : (run W c fuel req).log[i]? = some a) (hb : (run W c fuel req).log[i + 1]? = some b)
+    (h303 : a.reply.status = 303) :
+    ∀ l ∈ b.headers, lower l.1 ∈ contentSpecific.map lower → l.1 ∈ c.injected := by
+  have := (run_303_headers W c fuel req hwf).get i a b ha hb
+  exact this (by rw [h303]; decide)
+
+theorem C05_303_no_content_headers_noproxy (W : World) (c : Client) (fuel : Nat) (req : Req)
+    (hwf : CarriersWF c req) (hp : c.noProxy) (i : Nat) (a b : Sent)
+    (ha : (run W c fuel req).log[i]? = some a) (hb : (run W c fuel req).log[i + 1]? = some b)
+    (h303 : a.reply.status = 303) :
+    ∀ l ∈ b.headers, lower l.1 ∉ contentSpecific.map lower := by
+  intro l hl hcs
+  have := C05_303_rewrite_headers W c fuel req hwf i a b ha hb h303 l hl hcs
+  cases c with
+  | manager m => simp only [Client.noProxy] at hp; simp [Client.injected, injected, hp] at this
+  | pool p => simp only [Client.noProxy] at hp; simp [Client.injected, poolInjected, hp] at this
+
+/-- non-vacuity: `POST` with `Content-Type` (any casing) and `X-Keep` in a dict / in an
+`HTTPHeaderDict`, answered by 303: the follow-up keeps `X-Keep` only -/
+example :
+    Client.noProxy (.manager ⟨.none, .dict [], none⟩) ∧ Client.noProxy (.pool barePool) ∧
+    CarriersWF (.manager ⟨.none, .dict [], none⟩)
+      { postReq with headers := some (.dict [(lit "content-TYPE", lit "t"), (lit "X-Keep", lit "k")]) } ∧
+    ((run (statusWorld 303) (.manager ⟨.none, .dict [], none⟩) 2
+      { postReq with headers := some (.dict [(lit "content-TYPE", lit "t"), (lit "X-Keep", lit "k")]) }).log.map
+        (fun s => (s.method, s.headers)))
+      = [(lit "POST", [(lit "content-TYPE", lit "t"), (lit "X-Keep", lit "k")]), (sGET, [(lit "X-Keep", lit "k")])] ∧
+    ((run (statusWorld 303) (.pool barePool) 2
+      { postReq with url := [47], headers := some (.hd (extend [] [(lit "Digest", lit "d"), (lit "X-Keep", lit "k")])) }).log.map
+        (fun s => (s.method, s.headers)))
+      = [(lit "POST", [(lit "Digest", lit "d"), (lit "X-Keep", lit "k")]), (sGET, [(lit "X-Keep", lit "k")])] := by
+  refine ⟨rfl, rfl, ⟨trivial, fun h hh => ?_⟩, by decide, by decide⟩
+  injection hh with hh; subst hh; trivial
 
 /-- **301/302/307/308 keep method and body** (the code rewrites on 303 only — also for a `POST`
 answered by 301/302, where browsers would switch to `GET`): a followed request was answered by one of
